@@ -222,7 +222,8 @@ fn w2_explore(cfgs: Vec<(String, W2Cfg, usize, f64, u64)>, totals: &mut w4props:
 pub fn run_c11(tier: Tier) -> ! {
     let mut cfgs = vec![];
     // (ts, hsa, others in ring)
-    let stations: Vec<(u8, u8, Vec<u8>)> = vec![(3, 7, vec![1, 5]), (0, 7, vec![2, 5]), (6, 7, vec![1, 4])];
+    // the last two: bit-set word boundary 63/64 and the top of the address space with the wrap-around to 0
+    let stations: Vec<(u8, u8, Vec<u8>)> = vec![(3, 7, vec![1, 5]), (0, 7, vec![2, 5]), (6, 7, vec![1, 4]), (64, 126, vec![63, 100]), (125, 126, vec![0, 64])];
     for (si, (ts, hsa, others)) in stations.iter().enumerate() {
         if tier == Tier::Quick && si > 0 {
             // quick: the other stations only in the ring situation with the fast poll grid
@@ -301,7 +302,7 @@ pub fn run_c05(tier: Tier) -> ! {
     // (i) + (ii): FDL station with the stock applications
     let mut cfgs = vec![];
     let stations: Vec<(u8, u8, u8)> = match tier {
-        Tier::Quick => vec![(3, 7, 1), (0, 4, 1), (6, 7, 10)],
+        Tier::Quick => vec![(3, 7, 1), (0, 4, 1), (6, 7, 10), (125, 126, 1)],
         Tier::Thorough => vec![(3, 7, 1), (0, 4, 1), (6, 7, 10), (0, 7, 1), (125, 126, 10), (2, 126, 1), (3, 4, 1)],
     };
     for (i, (ts, hsa, g)) in stations.iter().enumerate() {
